@@ -10,7 +10,7 @@
      spec_*         "for each chromosome the single-contig kernel on that chromosome's entries alone"
      model_*        the code's algorithm in concatenated coordinates *)
 From Coq Require Import ZArith List Bool Permutation Sorted Lia.
-From BNP Require Import Base.Prims Model.C10 Proofs.C10 Proofs.C10_b Proofs.C10_c Gen.C10 Bridge.C10.
+From BNP Require Import Base.Prims Model.C10 Corr.C10 Proofs.C10 Proofs.C10_b Proofs.C10_c Proofs.C10_d Proofs.C10_e Gen.C10 Bridge.C10.
 Import ListNotations.
 Open Scope Z_scope.
 
@@ -25,6 +25,26 @@ Theorem C10_offset_bijection : forall szs, nonneg szs ->
   /\ (forall c p, size_of szs c <= p -> from_local szs c p = None).
 Proof. exact offset_bijection. Qed.
 Print Assumptions C10_offset_bijection.
+
+(* T1'  ... and on whole coordinate lists: enumerating (chromosome, position) in genome order and converting gives
+   0,1,2,...,total-1; converting those back gives the enumeration; the position `size` of every chromosome is refused *)
+Theorem C10_coords_lists : forall szs, nonneg szs ->
+  model_coords szs = RCoords (arange (total szs)) (enum_positions szs) (map (fun _ => true) szs).
+Proof. exact coords_spec. Qed.
+Print Assumptions C10_coords_lists.
+
+(* T0  ignored chromosomes (GenomeContext.mask_data): exactly the entries of included chromosomes survive, in order,
+   re-coded to the rank of their chromosome among the included ones; under that code an entry is measured against its
+   own chromosome's size, the code maps back to the chromosome, and entries of ignored chromosomes are dropped *)
+Theorem C10_mask_data : forall f g es d, let fl := incl_flags f g in
+  visible fl es = map (fun e => set_chr e (code_of fl (e_chr e))) (filter (fun e => nthd false fl (e_chr e)) es)
+  /\ (forall k, 0 <= k < len g -> keeps f (nthd d g k) = true ->
+        size_of (ctx_sizes f g) (code_of fl k) = c_size (nthd d g k)
+        /\ uncode fl (code_of fl k) = k
+        /\ 0 <= code_of fl k < len (ctx_sizes f g))
+  /\ (forall k, keeps f (nthd d g k) = false -> 0 <= k < len g -> nthd false fl k = false).
+Proof. exact visible_spec. Qed.
+Print Assumptions C10_mask_data.
 
 (* T2  the genome-wide pileup / mask, cut at the chromosome offsets, is for every chromosome the
    single-contig pileup / mask of that chromosome's intervals alone — any number of chromosomes, any
@@ -51,17 +71,22 @@ Theorem C10_negative_start_refused_when_checked : forall szs es,
 Proof. exact negative_start_refused_when_checked. Qed.
 Print Assumptions C10_negative_start_refused_when_checked.
 
-(* T3  merging (any distance d >= 0) with the repaired algorithm — global coordinates with the chromosomes
-   moved d+1 further apart — gives for every chromosome exactly the single-contig merge of its own
-   intervals: nothing is fused across a boundary, chromosomes without intervals contribute nothing. *)
+(* T3  merged(d) and Geometry.merge_intervals(.., d) as they are at /repo HEAD — global coordinates with the
+   chromosomes moved d+1 further apart — give, for every d >= 0, any number of chromosomes (with or without intervals,
+   whatever their names) and every table sorted by (chromosome, start), for every chromosome exactly the single-contig
+   merge of its own intervals: nothing is fused across a boundary. *)
 Theorem C10_merged_local : forall szs us d es, nonneg szs -> 0 <= d ->
   Forall (entry_wf szs) es -> StronglySorted cs_le es ->
-  model_merged_fixed szs us d es = RIvs (map triple (spec_merged szs d es)).
-Proof. exact merged_fixed_local. Qed.
+  model_merged szs us d es = RIvs (map triple (spec_merged szs d es)).
+Proof. exact merged_local. Qed.
 Print Assumptions C10_merged_local.
+Theorem C10_geo_merge_local : forall szs d es, nonneg szs -> 0 <= d ->
+  Forall (entry_wf szs) es -> StronglySorted cs_le es ->
+  model_geo_merge szs d es = RIvs (map triple (spec_merged szs d es)).
+Proof. exact geo_merge_local. Qed.
+Print Assumptions C10_geo_merge_local.
 
-(* the code at the pinned commit has this property only on a sub-class: distance > 0, no chromosome name with '_'
-   (us = all false), and every chromosome carrying at least one interval *)
+(* History: the code before fix-1 (model_*_pinned, kept in Model/C10.v) had this only on a sub-class ... *)
 Theorem C10_merged_pinned_partial : forall szs us d es, 0 < d ->
   length us = length szs -> Forall (fun b => b = false) us -> (1 <= length szs)%nat ->
   StronglySorted cs_le es -> Forall (fun e => 0 <= e_chr e < len szs) es ->
@@ -91,16 +116,42 @@ Theorem C10_geo_merge_pinned_silent_refuted :
 Proof. exact geo_merge_pinned_silent_refuted. Qed.
 Print Assumptions C10_geo_merge_pinned_silent_refuted.
 
-(* T4  clip / extended_to_size / windows use the size of the row's own chromosome; the result lies on it *)
-Theorem C10_rowwise_own_chromosome : forall szs es,
-  model_clip szs es = spec_clip szs es
-  /\ (forall n, model_extend szs n es = spec_extend szs n es)
-  /\ (forall l r, model_windows szs l r es = spec_windows szs l r es)
-  /\ (forall e, In e (spec_clip szs es) -> 0 <= e_start e /\ e_stop e <= size_of szs (e_chr e))
+(* T4  clip / windows / extended_to_size.  The single-contig clip (arithmetics.clip since fc449e4) keeps both ends in
+   [0,size]: clip2.  Geometry.clip is that, with the row's own chromosome size, for every interval. *)
+Theorem C10_geo_clip : forall szs es, model_geo_clip szs es = spec_clip szs es.
+Proof. exact geo_clip_spec. Qed.
+Print Assumptions C10_geo_clip.
+Theorem C10_clip_meaning : forall size e, 0 <= size ->
+  let w := clip2 size e in
+  0 <= e_start w <= size /\ 0 <= e_stop w <= size /\ e_chr w = e_chr e
+  /\ (e_start e <= e_stop e -> e_start w <= e_stop w)
+  /\ (forall x, e_start w <= x < e_stop w <-> (e_start e <= x < e_stop e /\ 0 <= x < size)).
+Proof. exact clip2_meaning. Qed.
+Print Assumptions C10_clip_meaning.
+(* GenomicIntervalsFull.clip is the single-contig clip for every interval that reaches its chromosome's range
+   (start <= size, 0 <= stop) — in particular for everything that lies on or overlaps the chromosome ... *)
+Theorem C10_clip_partial : forall szs es, nonneg szs ->
+  Forall (fun e => e_start e <= size_of szs (e_chr e) /\ 0 <= e_stop e) es ->
+  model_clip szs es = spec_clip szs es.
+Proof. exact clip_partial. Qed.
+Print Assumptions C10_clip_partial.
+(* ... but its one-sided formula turns an interval lying entirely beyond the end into an inverted one *)
+Theorem C10_clip_one_sided_refuted : exists size e, 0 <= size /\ e_start e <= e_stop e /\ clip1 size e <> clip2 size e
+  /\ e_stop (clip1 size e) < e_start (clip1 size e).
+Proof. exact clip_one_sided_refuted. Qed.
+Print Assumptions C10_clip_one_sided_refuted.
+(* get_windows around locations that lie on their chromosome: the single-contig clip of [p-l, p+r), own size *)
+Theorem C10_windows : forall szs l r es, nonneg szs -> 0 <= l -> 0 <= r ->
+  Forall (fun e => 0 <= e_start e < size_of szs (e_chr e)) es ->
+  model_windows szs l r es = spec_windows szs l r es.
+Proof. exact windows_spec. Qed.
+Print Assumptions C10_windows.
+Theorem C10_extend_own_chromosome : forall szs es,
+  (forall n, model_extend szs n es = spec_extend szs n es)
   /\ (forall n e, 0 <= n -> In e es -> 0 <= e_start e -> e_stop e <= size_of szs (e_chr e) ->
         let e' := extend1 n (size_of szs (e_chr e)) e in 0 <= e_start e' /\ e_stop e' <= size_of szs (e_chr e)).
-Proof. exact rowwise_own_chromosome. Qed.
-Print Assumptions C10_rowwise_own_chromosome.
+Proof. exact extend_own_chromosome. Qed.
+Print Assumptions C10_extend_own_chromosome.
 Theorem C10_window : forall size l r p e, 0 <= l -> 1 <= r -> 0 <= p < size -> e_start e = p ->
   let w := clip1 size (set_se e (e_start e - l) (e_start e + r)) in
   0 <= e_start w <= p /\ p < e_stop w <= size /\ e_chr w = e_chr e
@@ -117,6 +168,14 @@ Theorem C10_loc_sorted : forall es,
   Permutation (model_loc_sorted es) es /\ sorted_by (fun e => (e_chr e, e_start e, 0)) (model_loc_sorted es) = true.
 Proof. exact loc_sorted_spec. Qed.
 Print Assumptions C10_loc_sorted.
+
+(* Geometry.sort (np.lexsort on the global stop, start; back through to_local_interval): for every table placed on the
+   genome the result is the same rows, every row on its own chromosome again, in genome order, then start, then stop *)
+Theorem C10_geo_sort : forall szs es, nonneg szs -> Forall (entry_placed szs) es ->
+  exists out, model_geo_sort szs es = RIvs (map triple out)
+    /\ Permutation out es /\ sorted_by triple out = true.
+Proof. exact geo_sort_spec. Qed.
+Print Assumptions C10_geo_sort.
 
 (* T6  values under intervals: a slice of the concatenated array at offset+start .. offset+stop is the slice
    start .. stop of that chromosome's own array (reversed on '-'), whatever the neighbours hold *)
@@ -147,6 +206,16 @@ Theorem C10_location_fixed : forall st w e, 0 <= w <= 2 -> model_location_fixed 
 Proof. exact location_fixed_spec. Qed.
 Print Assumptions C10_location_fixed.
 
+(* Link: for every well-formed case of every operation of the correspondence (Corr/C10.v) — sizes >= 0, start <= stop,
+   Geometry only on included chromosomes, and per operation: merged on a (chromosome,start)-sorted table with d >= 0;
+   GenomicIntervalsFull.clip on intervals reaching their chromosome's range; get_location where in {start,stop,center};
+   windows around locations on their chromosome; array values as long as the chromosomes; sequence extraction on good
+   tables outside the all-length-1 stranded class — the implementation agreeing with the model implies that the
+   property holds on that case.  Tables that reach outside a chromosome are covered: the model refuses them. *)
+Theorem C10_model_ok_spec_ok : forall c, case_wf c -> model_ok c = true -> spec_ok c = true.
+Proof. exact model_ok_spec_ok. Qed.
+Print Assumptions C10_model_ok_spec_ok.
+
 (* Source tie: the arithmetic regenerated from /repo on this run (Gen/C10.v, written by translate/run.py through
    translate/gen_c10.py from global_offset.py, genomic_intervals.py, geometry.py and arithmetics/intervals.py) is the
    arithmetic of the model the theorems above are about: (a) every generated definition equals the model's named
@@ -168,7 +237,7 @@ Theorem C10_source_tie :
         (gen_win_flank_l f = m_flank_l f /\ gen_win_flank_r f = m_flank_r f)
         /\ (gen_win_size_l w = m_wsize_l w /\ gen_win_size_r w = m_wsize_r w)
         /\ (gen_win_start p l r = m_win_start p l /\ gen_win_stop p l r = m_win_stop p r)
-        /\ (gen_clip_start size s = m_clip_start s /\ gen_clip_stop size t = m_clip_stop size t)
+        /\ (gen_clip_start size s = m_clip_start size s /\ gen_clip_stop size t = m_clip_stop size t)
         /\ (gen_geo_clip_start size s = m_geo_clip_start size s /\ gen_geo_clip_stop size t = m_geo_clip_stop size t)
         /\ (gen_extend_start fwd s t n size = m_extend_start fwd s t n
             /\ gen_extend_stop fwd s t n size = m_extend_stop fwd s t n size)
@@ -199,12 +268,12 @@ Theorem C10_source_tie :
   /\ (forall szs es, globalise szs es
         = map (fun e => set_se e (m_global (off szs (e_chr e)) (e_start e)) (m_global (off szs (e_chr e)) (e_stop e))) es)
   /\ (forall szs es, model_clip szs es
-        = map (fun e => set_se e (m_clip_start (e_start e)) (m_clip_stop (size_of szs (e_chr e)) (e_stop e))) es)
+        = map (fun e => set_se e (m_clip_start (size_of szs (e_chr e)) (e_start e)) (m_clip_stop (size_of szs (e_chr e)) (e_stop e))) es)
   /\ (forall szs n es, model_extend szs n es
         = map (fun e => set_se e (m_extend_start (e_fwd e) (e_start e) (e_stop e) n)
                                  (m_extend_stop (e_fwd e) (e_start e) (e_stop e) n (size_of szs (e_chr e)))) es)
   /\ (forall szs l r es, model_windows szs l r es
-        = map (fun e => set_se e (m_clip_start (m_win_start (e_start e) l))
+        = map (fun e => set_se e (m_clip_start (size_of szs (e_chr e)) (m_win_start (e_start e) l))
                                  (m_clip_stop (size_of szs (e_chr e)) (m_win_stop (e_start e) r))) es)
   /\ (forall st w e, model_location st w e
         = if (w =? 0) || (w =? 1)
@@ -244,4 +313,22 @@ Proof.
   { repeat constructor; unfold size_of, nthZ, len; simpl; lia. }
   split; [repeat constructor; unfold cs_le; simpl; lia|].
   vm_compute. repeat split; reflexivity.
+Qed.
+
+(* non-vacuity of the link theorem: a concrete merged(1) case on the keep-all genome {chr:3, ch_:2, c:4} with an
+   interval ending at the end of `chr`, one starting at 0 of `ch_`, and `c` empty is well-formed, the observation of the
+   repaired code agrees with the model, and the property holds on it *)
+Example C10_link_nonvacuous :
+  let c := {| k_genome := [ {| c_name := [99; 104; 114]; c_size := 3 |}; {| c_name := [99; 104; 95]; c_size := 2 |};
+                            {| c_name := [99]; c_size := 4 |} ];
+              k_filter := KeepAll;
+              k_entries := [mk 0 1 3; mk 1 0 1; mk 1 1 2];
+              k_vals := []; k_op := OMerged false 1;
+              k_obs := RIvs [(0, 1, 3); (1, 0, 2)] |} in
+  case_wf c /\ model_ok c = true /\ spec_ok c = true.
+Proof.
+  cbv zeta. split; [|split; vm_compute; reflexivity].
+  split; [vm_compute; repeat constructor; discriminate|].
+  split; [repeat constructor; cbn; lia|]. split; [intros H; discriminate H|].
+  split; [vm_compute; reflexivity|lia].
 Qed.
